@@ -44,7 +44,7 @@ pub fn verif_rc_parse_config<T>(v: &serde_json::Value) -> (r: T)
     ensures r == rc_parsed::<T>(*v)
 { unimplemented!() }
 
-// ---- petgraph: Index<NodeIndex>, node_indices, edge_references, neighbors -------------------------------------------------
+// ---- petgraph: Index<NodeIndex>, node_indices, edge_references --------------------------------------------------------------
 
 /// petgraph `impl Index<NodeIndex<Ix>> for Graph`: "Index the Graph by NodeIndex to access node weights. Panics if the node
 /// doesn't exist."  "The node exists" is a PRECONDITION (index_req below), proved at every `graph[..]`.
